@@ -963,7 +963,11 @@ func engineB(c *core.Ctx) error {
 			defer wg.Done()
 			sem <- struct{}{}
 			defer func() { <-sem }()
-			bad, err := c.JudgeRecords("JudgeFacets", "JudgeFacets.cfg", records[p.lo:p.hi], 5, withDesign, core.Timeout(10*time.Minute))
+			// a trivially correct first record: TLC reports a violation in the initial
+			// state without a state number, which the runtime cannot map to a record
+			dummy := recordB{Kind: "terms", Docs: [][]int{}, Pass: []int{}, Ranges: []Range{}, Got: FR{List: []Entry{}}}
+			chunkRecs := append([]any{dummy}, records[p.lo:p.hi]...)
+			bad, err := c.JudgeRecords("JudgeFacets", "JudgeFacets.cfg", chunkRecs, 5, withDesign, core.Timeout(10*time.Minute))
 			mu.Lock()
 			defer mu.Unlock()
 			if err != nil {
@@ -973,7 +977,11 @@ func engineB(c *core.Ctx) error {
 				return
 			}
 			for i, inv := range bad {
-				f := metas[p.lo+i].fail
+				if i == 0 {
+					jerr = fmt.Errorf("judge rejected the trivial record (%s)", inv)
+					return
+				}
+				f := metas[p.lo+i-1].fail
 				f.Clause = inv
 				report(c, &f)
 			}
